@@ -743,7 +743,7 @@ func billingCase(rt *rapid.T, prop string, rec *vt.Rec) {
 func runBilling(t *testing.T, prop string) {
 	defer vt.Watch("billing/"+prop, 120*time.Second)()
 	rec := vt.For(prop)
-	rapid.Check(t, func(rt *rapid.T) {
+	check(t, func(rt *rapid.T) {
 		rapid.SyncTest(rt, func(rt *rapid.T) { billingCase(rt, prop, rec) })
 	})
 }
